@@ -83,6 +83,14 @@ impl Buildpack for TestBuildpack {
                         .build(),
                 )
                 .build(),
+            // requirement metadata assembled from a HashMap, as buildpacks do (C20): the written plan must not
+            // depend on the map's per-process iteration order
+            "pass_plan_meta" => {
+                let hm: std::collections::HashMap<String, String> = (0..7).map(|i| (format!("key{i}"), format!("v{i}"))).collect();
+                let mut r = libcnb::data::build_plan::Require::new("node");
+                r.metadata(hm).expect("a map serialises as a table");
+                DetectResultBuilder::pass().build_plan(BuildPlanBuilder::new().provides("node").requires(r).build()).build()
+            }
             "fail" => DetectResultBuilder::fail().build(),
             _ => Err(Error::BuildpackError(BpError)),
         }
@@ -119,6 +127,13 @@ impl Buildpack for TestBuildpack {
             lb.slice(libcnb::data::launch::Slice { path_globs: vec!["a/**".to_string(), "b".to_string()] });
             lb.slice(libcnb::data::launch::Slice { path_globs: vec!["c".to_string()] });
             r = r.launch(lb.build());
+        }
+        if b["store"] == "rich" {
+            // store metadata assembled from HashMaps (C20)
+            let inner: std::collections::HashMap<String, i64> = (0..6).map(|i| (format!("n{i}"), i)).collect();
+            let mut hm: std::collections::HashMap<String, toml::Value> = (0..6).map(|i| (format!("key{i}"), toml::Value::String(format!("v{i}")))).collect();
+            hm.insert("nested".into(), toml::Value::try_from(inner).unwrap());
+            r = r.store(Store { metadata: hm.into_iter().collect() });
         }
         if b["store"].as_bool().unwrap_or(false) {
             let mut t = toml::Table::new();
